@@ -684,10 +684,17 @@ func (ld *Loaded) coverageScans(id string) []*FuncResult {
 			if !ok {
 				continue
 			}
+			have := map[string]bool{}
 			for i := 0; i < st.NumFields(); i++ {
 				n++
+				have[st.Field(i).Name()] = true
 				if !seen[k][st.Field(i).Name()] {
 					missing = append(missing, st.Field(i).Name())
+				}
+			}
+			for f := range seen[k] {
+				if !have[f] {
+					missing = append(missing, f+" (clause for a field the struct does not have)")
 				}
 			}
 		}
